@@ -2,7 +2,7 @@
 """Developer helper: re-run, on the current checks and the current /repo head, every stored seeded defect against the check of its own
 property (and, where that one does not see it, the check that did) and every benign change against the checks recorded for it.
 usage: regress.py <workers> [name-prefix ...]   (one scratch directory per worker)"""
-import glob, json, os, subprocess, sys
+import glob, json, os, re, subprocess, sys
 from concurrent.futures import ThreadPoolExecutor
 V = os.path.dirname(os.path.dirname(os.path.abspath(__file__)))
 workers = int(sys.argv[1])
@@ -10,7 +10,7 @@ prefixes = sys.argv[2:]
 jobs = []
 for d in sorted(glob.glob(V + "/seeded/*")):
     name = os.path.basename(d)
-    if prefixes and not any(name.startswith(p) for p in prefixes):
+    if prefixes and not any(re.fullmatch(p, name) for p in prefixes):
         continue
     m = json.load(open(d + "/meta.json"))
     det = m.get("detected_by", {})
